@@ -282,7 +282,7 @@ def make_invalid(rng, tokens):
     kind = rng.choice(['double_op', 'empty_paren', 'empty_array', 'empty_args', 'dangling_end',
                        'dangling_start', 'foreign', 'juxta_var', 'juxta_paren', 'unbalanced_open',
                        'unbalanced_close', 'mismatched', 'case_var', 'case_func', 'juxta_num_var',
-                       'double_unary', 'trailing_comma'])
+                       'double_unary', 'trailing_comma', 'juxta_tab', 'juxta_tab'])
     binops = [i for i, t in enumerate(toks) if t in ('+', '*', '/', '^', '||') and i > 0]
     if kind == 'double_op':
         if not binops:
@@ -320,6 +320,12 @@ def make_invalid(rng, tokens):
         return kind, ''.join(toks) + ' ' + 'qq', ('UnableToParse', 'UndefinedVariable', 'UndefinedFunction')
     if kind == 'juxta_num_var':
         return kind, '2' + 'qq' + '+' + ''.join(toks), ('UnableToParse', 'UndefinedVariable', 'UndefinedFunction')
+    if kind == 'juxta_tab':
+        # a tab / line break is allowed BETWEEN tokens only: inside a number or a name, or between two operands,
+        # it makes a juxtaposition, which is outside the grammar
+        ws = rng.choice(['\t', '\n', '\r\n', '\t '])
+        piece = rng.choice(['2%s3', '1%s.5', 'x%sy', 'a%sb1', 'sin%sh(1)', '1e%s3', '2%sk', 'x_%s1', '(1)%s(2)', 'x%s2', '3%sx']) % ws
+        return kind, ''.join(toks) + '+' + piece, PARSE + ('UndefinedVariable', 'UndefinedFunction')
     if kind == 'juxta_paren':
         return kind, '(' + ''.join(toks) + ')' + rng.choice(['(2)', '2', 'a', '[1,2]']), PARSE
     if kind == 'unbalanced_open':
